@@ -212,8 +212,9 @@ def sync_alt_coq():
         COQ_MAIN + "/", COQ + "/"], timeout=600)
 
 
-def regenerate():
-    sync_alt_coq()
+def regenerate(dry=False):
+    if not dry:
+        sync_alt_coq()
     specs = []
     for pid in prop_ids():
         specs.extend(load_prop(pid).get("generated", []))
@@ -224,8 +225,9 @@ def regenerate():
     path = os.path.join(COQ, "gen", "Generated.v")
     old = open(path).read() if os.path.exists(path) else None
     if old != text:
-        with open(path, "w") as f:
-            f.write(text)
+        if not dry:
+            with open(path, "w") as f:
+                f.write(text)
         return True
     return False
 
@@ -239,6 +241,27 @@ def coq_sources():
     for d in ("lib", "gen", "model", "proofs", "check", "Properties"):
         out.extend(sorted(glob.glob(os.path.join(COQ, d, "*.v"))))
     return [os.path.relpath(p, COQ) for p in out]
+
+
+def up_to_date(targets):
+    """True when Generated.v, the Makefile and the given targets need no work (so that a check can proceed
+    under the shared lock only). Never writes."""
+    if COQ != COQ_MAIN and not os.path.isdir(COQ):
+        return False
+    try:
+        if regenerate(dry=True):
+            return False
+    except Exception:
+        return False
+    proj = os.path.join(COQ, "_CoqProject")
+    head = "-Q . MevVerif\n-arg -w -arg -notation-overridden,-deprecated-hint-without-locality\n"
+    body = head + "\n".join(coq_sources()) + "\n"
+    if not os.path.exists(proj) or open(proj).read() != body or not os.path.exists(os.path.join(COQ, "Makefile")):
+        return False
+    if COQ != COQ_MAIN:
+        return False  # scratch-repository runs always sync their private tree
+    rc, out, _ = sh(["make", "-q"] + targets, cwd=COQ, timeout=300)
+    return rc == 0
 
 
 def ensure_makefile():
